@@ -415,3 +415,8 @@ func TestC16ConcurrentInits(t *testing.T) {
 func TestC12ConcurrentBuilds(t *testing.T) {
 	concurrentRounds(t, "C12", concurrentIndexes, "6 goroutines building record indexes at the same time, each checks its own records")
 }
+
+// TestC17ConcurrentBuilds: filter-mode indexes built at the same time have the size they have alone.
+func TestC17ConcurrentBuilds(t *testing.T) {
+	concurrentRounds(t, "C17", concurrentFilterSizes, "7 goroutines building filter-mode indexes that share node shapes; every size must equal the size of the same build alone")
+}
